@@ -16,7 +16,10 @@ EXTRA = {"C01-3": ["C12"], "C10-3": ["C12"], "C07-1": ["C04"], "C17-1": ["C02"],
          "C07-7": ["C03"], "C19-7": ["C12"], "C01-8": ["C09"], "C18-8": ["C01"], "C13-7": ["C09"], "C10-8": ["C09"],
          "C01-12": ["C12"], "C08-10": ["C12", "C09"], "C18-10": ["C12", "C10"], "C18-11": ["C01", "C17"], "C17-12": ["C01"], "C17-10": ["C03"],
          "C17-11": ["C10"], "C13-12": ["C12", "C09"], "C13-11": ["C09"], "C10-10": ["C12"], "C12-12": ["C10"], "C19-12": ["C09"], "C19-11": ["C09"],
-         "C14-11": ["C09", "C12"], "C03-11": ["C01"], "C03-12": ["C02", "C17"], "C07-10": ["C04"], "C07-11": ["C03"], "C02-11": ["C03"]}
+         "C14-11": ["C09", "C12"], "C03-11": ["C01"], "C03-12": ["C02", "C17"], "C07-10": ["C04"], "C07-11": ["C03"], "C02-11": ["C03"],
+         "C01-14": ["C03"], "C01-15": ["C12"], "C02-14": ["C03"], "C09-13": ["C12"], "C12-15": ["C09"], "C13-15": ["C12"], "C15-15": ["C12"],
+         "C18-13": ["C12"], "C19-13": ["C09", "C12"], "C19-14": ["C03"], "C19-15": ["C09"], "C15-13": ["C12"], "C06-15": ["C12", "C09"],
+         "C06-14": ["C12"], "C08-13": ["C12"], "C14-13": ["C12"], "C04-14": ["C01"], "C17-14": ["C03"], "C17-13": ["C02"]}
 
 
 def run(name):
